@@ -32,30 +32,42 @@ EXEMPT = {
         'entry.tp_new_can_be_vectorcall = not self.star_arg for every __init__/__cinit__ involved: the combination cannot be emitted',
 }
 
+# Single-edit variants tried on a scratch copy (/tmp/scr_C24); every one was reported (exit 1) by the rule named, with a message
+# naming the edited construct.  (file, edit, reporting rule)
 MUTATIONS = [
-    # (file, edit, expected rule) -- all tried on a scratch copy, see the builder report
     ('Cython/Compiler/Nodes.py', "generate_stararg_copy_code: drop the last argument of __Pyx_RaiseArgtupleInvalid(...)", 'C24-I5'),
     ('Cython/Compiler/Nodes.py', "generate_tuple_and_keyword_parsing_code (argtuple_error_label): swap min_positional_args / max_positional_args", 'C24-I6'),
-    ('Cython/Compiler/Nodes.py', "generate_argument_parsing_code: __Pyx_KwValues_%s(args, nargs) -> (nargs, args)", 'C24-I6'),
-    ('Cython/Utility/FunctionArguments.c', "__Pyx_ParseKeywords: swap num_pos_args/num_kwargs in the call of __Pyx_ParseKeywordDict", 'C24-I6'),
+    ('Cython/Compiler/Nodes.py', "generate_argument_parsing_code: __Pyx_KwValues_%s(args_cname, nargs_cname) -> (nargs_cname, args_cname)", 'C24-I6'),
+    ('Cython/Compiler/Nodes.py', "generate_keyword_unpacking_code: __Pyx_ParseKeywords(kwds, kwvalues, ...) -> (kwvalues, kwds, ...)", 'C24-I6'),
+    ('Cython/Utility/FunctionArguments.c', "__Pyx_ParseKeywords: swap num_pos_args / num_kwargs in the call of __Pyx_ParseKeywordDict", 'C24-I6'),
     ('Cython/Utility/FunctionArguments.c', "delete `#define __Pyx_NumKwargs_FASTCALL_TPNEW __Pyx_NumKwargs_VARARGS` (the #else branch)", 'C24-FAM'),
-    ('Cython/Utility/FunctionArguments.c', "`#define __Pyx_KwValues_FASTCALL(args, nargs)` -> one parameter", 'C24-FAM / C24-I5'),
-    ('Cython/Compiler/TypeSlots.py', "fastcall_guard: TP_NEW branch returns CYTHON_VECTORCALL", 'C24-GUARD'),
+    ('Cython/Utility/FunctionArguments.c', "delete `#define __Pyx_ArgsSlice_FASTCALL __Pyx_ArgsSlice_VARARGS` (the #else branch)", 'C24-FAM'),
+    ('Cython/Utility/FunctionArguments.c', "`#define __Pyx_KwValues_FASTCALL(args, nargs)` -> one parameter", 'C24-FAM'),
+    ('Cython/Compiler/TypeSlots.py', "fastcall_guard: the TP_NEW branch returns \"CYTHON_VECTORCALL\"", 'C24-GUARD'),
+    ('Cython/Compiler/TypeSlots.py', "fastvar: the TP_NEW branch returns \"FASTCALL\"", 'C24-GUARD'),
     ('Cython/Utility/FunctionArguments.c', "`#define __Pyx_ArgRef_FASTCALL_TPNEW __Pyx_ArgRef_FASTCALL` -> __Pyx_ArgRef_VARARGS", 'C24-GUARD'),
-    ('Cython/Compiler/Nodes.py', "generate_tuple_and_keyword_parsing_code: remove use_utility_code(RejectKeywords)", 'C24-I8'),
-    ('Cython/Compiler/Nodes.py', "generate_tuple_and_keyword_parsing_code: remove `{goto_error}` after __Pyx_RejectKeywords", 'C24-RX'),
+    ('Cython/Utility/FunctionArguments.c', "fastcall implementation: `#if CYTHON_VECTORCALL` -> `#if CYTHON_VECTORCALL && CYTHON_ASSUME_SAFE_MACROS`", 'C24-PD'),
+    ('Cython/Compiler/Nodes.py', "generate_tuple_and_keyword_parsing_code: remove use_utility_code(load_cached('RejectKeywords', ...))", 'C24-I8'),
+    ('Cython/Compiler/Nodes.py', "generate_keyword_unpacking_code: put use_utility_code(load_cached('ParseKeywords', ...)) under `if self.starstar_arg:`", 'C24-I8'),
+    ('Cython/Compiler/Nodes.py', "generate_tuple_and_keyword_parsing_code: remove `{goto_error}` after __Pyx_RejectKeywords(...)", 'C24-RX'),
+    ('Cython/Compiler/Nodes.py', "generate_tuple_and_keyword_parsing_code: remove `{goto_error}` after __Pyx_RaiseArgtupleInvalid(..., i)", 'C24-RX'),
     ('Cython/Compiler/Nodes.py', "generate_argument_parsing_code: remove `code.error_label = old_error_label`", 'C24-G3'),
     ('Cython/Compiler/Nodes.py', "generate_argument_parsing_code: remove `code.put_label(end_label)`", 'C24-G4'),
-    ('Cython/Utility/CythonFunction.c', "__Pyx_CyFunction_Init: remove `case METH_O:` block", 'C24-FLAGS'),
-    ('Cython/Utility/CythonFunction.c', "swap the vectorcall functions assigned for METH_NOARGS and METH_O", 'C24-FLAGS'),
+    ('Cython/Compiler/Nodes.py', "generate_tuple_and_keyword_parsing_code: remove `code.put_label(argtuple_error_label)`", 'C24-G4'),
+    ('Cython/Utility/CythonFunction.c', "__Pyx_CyFunction_Init: remove the `case METH_O:` block", 'C24-FLAGS'),
+    ('Cython/Utility/CythonFunction.c', "__Pyx_CyFunction_Init: swap the vectorcall functions assigned for METH_NOARGS and METH_O", 'C24-FLAGS'),
+    ('Cython/Utility/CythonFunction.c', "__Pyx_CyFunction_CallMethod, case METH_VARARGS|METH_KEYWORDS: call meth(self, arg) without kw", 'C24-FLAGS'),
     ('Cython/Compiler/TypeSlots.py', "method_flags: [method_fastcall, method_keywords] -> [method_fastcall]", 'C24-FLAGS'),
-    ('Cython/Utility/FunctionArguments.c', "fastcall implementation: guard __Pyx_GetKwValue_FASTCALL with `#if CYTHON_VECTORCALL && CYTHON_ASSUME_SAFE_MACROS`", 'C24-PD'),
 ]
+# Behaviour-preserving edits tried: all stay silent.
 PRESERVING = [
-    ('Cython/Compiler/Nodes.py', 'rename local goto_error -> error_exit in generate_tuple_and_keyword_parsing_code'),
-    ('Cython/Compiler/Nodes.py', 'split the __Pyx_RejectKeywords putln into two putln calls (call; then goto_error)'),
-    ('Cython/Utility/FunctionArguments.c', 'reorder the #define lines of the CYTHON_VECTORCALL_TPNEW block; rename macro parameters'),
-    ('Cython/Compiler/Nodes.py', 'move generate_stararg_init_code above generate_arg_assignment'),
+    ('Cython/Compiler/Nodes.py', 'extra alias local `error_exit = goto_error` in generate_tuple_and_keyword_parsing_code'),
+    ('Cython/Compiler/Nodes.py', 'split the __Pyx_RejectKeywords putln into two putln calls (the call; then goto_error)'),
+    ('Cython/Compiler/Nodes.py', 'compute the `} else if (...)` text into a local before putln / put_goto'),
+    ('Cython/Compiler/Nodes.py', 'hoist use_utility_code(RejectKeywords) out of the `if not accept_kwd_args:` branch'),
+    ('Cython/Compiler/Nodes.py', 'move method generate_stararg_init_code above generate_arg_assignment'),
+    ('Cython/Utility/FunctionArguments.c', 'reorder two #define lines of the CYTHON_VECTORCALL_TPNEW block'),
+    ('Cython/Utility/FunctionArguments.c', 'rename the macro parameters of __Pyx_KwValues_FASTCALL'),
 ]
 
 
